@@ -1,1 +1,230 @@
-//! Format-driver table (stub).
+//! The format-driver table (DESIGN §2.7): for every reader/writer family one `Driver` that can
+//! generate a document, write it through noodles following the writer's finishing protocol, and
+//! read bytes back into a canonical `Transcript` — synchronously and, where an async twin exists,
+//! asynchronously. C12, C13, C14, C15, C16 (and parts of C20) are relations over transcripts.
+
+pub mod asyncs;
+pub mod docs;
+pub mod sync;
+
+use crate::engine::Tier;
+use crate::io_adv::chunk::{ChunkRead, ReadScript, ReadStats, WindowBufRead};
+use proptest::strategy::BoxedStrategy;
+use serde::{Deserialize, Serialize};
+use std::io::{self, BufRead, BufReader, Cursor, Read, Seek, Write};
+use std::sync::{Arc, Mutex};
+
+pub use docs::*;
+
+/// One generated document; each driver uses one variant.
+#[derive(Clone, Debug, Serialize, Deserialize, PartialEq)]
+pub enum Doc {
+    /// raw payload for BGZF itself: (payload, flush points as per-mille of the length, level)
+    Bytes { payload: crate::r#gen::payload::Payload, flushes: Vec<u16>, level: Option<u8> },
+    Aln(AlnDoc),
+    Var(VarDoc),
+    Text(TextDoc),
+    BinIndex(BinIndexDoc),
+    Pairs(PairsDoc),
+    Fai(FaiDoc),
+    Crai(CraiDoc),
+}
+
+/// Canonical event list produced by reading a byte string.
+#[derive(Clone, Debug, PartialEq, Eq)]
+pub enum Ev {
+    Header(String),
+    Record(String),
+    /// all bytes delivered by a raw byte reader: (fnv hash, length)
+    Bytes(u64, usize),
+    /// virtual position (BGZF based formats) after the preceding event
+    Vpos(u64),
+    Index(String),
+    Eof,
+    Err { stage: &'static str, kind: String },
+    /// the reader kept producing events far beyond what the input can hold
+    Runaway,
+}
+
+pub type Transcript = Vec<Ev>;
+
+pub fn err_ev(stage: &'static str, e: &io::Error) -> Ev {
+    Ev::Err { stage, kind: format!("{:?}", e.kind()) }
+}
+
+pub fn records_of(t: &Transcript) -> Vec<&String> {
+    t.iter().filter_map(|e| if let Ev::Record(s) = e { Some(s) } else { None }).collect()
+}
+
+pub fn summarize(t: &Transcript) -> String {
+    let mut out = String::new();
+    let n = t.len();
+    for (i, e) in t.iter().enumerate() {
+        if i >= 6 && i + 4 < n {
+            if i == 6 {
+                out.push_str(&format!("… ({} events) … ", n - 10));
+            }
+            continue;
+        }
+        match e {
+            Ev::Header(h) => out.push_str(&format!("Header[{}B] ", h.len())),
+            Ev::Record(r) => out.push_str(&format!("Record({}) ", crate::engine::trunc(r, 60))),
+            Ev::Bytes(h, l) => out.push_str(&format!("Bytes({l},{h:x}) ")),
+            Ev::Vpos(v) => out.push_str(&format!("@{v:x} ")),
+            Ev::Index(s) => out.push_str(&format!("Index[{}B] ", s.len())),
+            Ev::Eof => out.push_str("Eof "),
+            Ev::Err { stage, kind } => out.push_str(&format!("Err({stage},{kind}) ")),
+            Ev::Runaway => out.push_str("Runaway "),
+        }
+    }
+    out
+}
+
+/// How the underlying byte source delivers the file.
+#[derive(Clone, Debug, Serialize, Deserialize, PartialEq, Default)]
+pub enum Delivery {
+    /// `&[u8]` / `Cursor`
+    #[default]
+    Plain,
+    /// `ChunkRead`, wrapped in `BufReader::with_capacity(bufcap)` where a `BufRead` is needed
+    /// (`None` = the default capacity) — and never wrapped where `Read` suffices
+    Chunk { script: ReadScript, bufcap: Option<u32> },
+    /// `ChunkRead` always wrapped in `BufReader::with_capacity(bufcap)`
+    Buffered { script: ReadScript, bufcap: u32 },
+    /// direct `BufRead` exposing scripted windows
+    Window { script: ReadScript },
+}
+
+pub trait ReadSeek: Read + Seek + Send {}
+impl<T: Read + Seek + Send> ReadSeek for T {}
+pub trait BufReadSeek: BufRead + Seek + Send {}
+impl<T: BufRead + Seek + Send> BufReadSeek for T {}
+
+#[derive(Clone, Default)]
+pub struct SrcStats(pub Arc<Mutex<ReadStats>>);
+
+impl SrcStats {
+    pub fn get(&self) -> ReadStats {
+        self.0.lock().unwrap().clone()
+    }
+}
+
+pub fn open_read(data: &Arc<Vec<u8>>, d: &Delivery) -> (Box<dyn ReadSeek>, SrcStats) {
+    match d {
+        Delivery::Plain => (Box::new(Cursor::new(ArcBytes(data.clone()))), SrcStats::default()),
+        Delivery::Chunk { script, .. } => {
+            let r = ChunkRead::new(data.clone(), script.clone());
+            let st = SrcStats(r.stats.clone());
+            (Box::new(r), st)
+        }
+        Delivery::Buffered { script, bufcap } => {
+            let r = ChunkRead::new(data.clone(), script.clone());
+            let st = SrcStats(r.stats.clone());
+            (Box::new(BufReader::with_capacity((*bufcap as usize).max(1), r)), st)
+        }
+        Delivery::Window { script } => {
+            let r = WindowBufRead::new(data.clone(), script.clone());
+            let st = SrcStats(r.stats.clone());
+            (Box::new(r), st)
+        }
+    }
+}
+
+pub fn open_bufread(data: &Arc<Vec<u8>>, d: &Delivery) -> (Box<dyn BufReadSeek>, SrcStats) {
+    match d {
+        Delivery::Plain => (Box::new(Cursor::new(ArcBytes(data.clone()))), SrcStats::default()),
+        Delivery::Chunk { script, bufcap } => {
+            let r = ChunkRead::new(data.clone(), script.clone());
+            let st = SrcStats(r.stats.clone());
+            let b: Box<dyn BufReadSeek> = match bufcap {
+                Some(c) => Box::new(BufReader::with_capacity((*c as usize).max(1), r)),
+                None => Box::new(BufReader::new(r)),
+            };
+            (b, st)
+        }
+        Delivery::Buffered { script, bufcap } => {
+            let r = ChunkRead::new(data.clone(), script.clone());
+            let st = SrcStats(r.stats.clone());
+            (Box::new(BufReader::with_capacity((*bufcap as usize).max(1), r)), st)
+        }
+        Delivery::Window { script } => {
+            let r = WindowBufRead::new(data.clone(), script.clone());
+            let st = SrcStats(r.stats.clone());
+            (Box::new(r), st)
+        }
+    }
+}
+
+/// `Arc<Vec<u8>>` as `AsRef<[u8]>` for `Cursor`.
+#[derive(Clone)]
+pub struct ArcBytes(pub Arc<Vec<u8>>);
+impl AsRef<[u8]> for ArcBytes {
+    fn as_ref(&self) -> &[u8] {
+        &self.0
+    }
+}
+
+#[derive(Clone, Debug)]
+pub struct ReadOpts {
+    /// touch every accessor of every record returned Ok (C15)
+    pub sweep: bool,
+    /// stop and emit `Runaway` after this many events
+    pub max_events: usize,
+    /// record a `Vpos` event after each record for BGZF-based formats
+    pub vpos: bool,
+    /// buffer size used by the raw BGZF driver's `read` loop (≥ 65536 takes the reader's
+    /// direct-into-caller-buffer path)
+    pub bgzf_buf: usize,
+}
+
+impl Default for ReadOpts {
+    fn default() -> Self {
+        ReadOpts { sweep: false, max_events: 200_000, vpos: true, bgzf_buf: 4093 }
+    }
+}
+
+#[derive(Clone, Copy, Debug, PartialEq, Eq)]
+pub enum Family {
+    Bgzf,
+    Alignment,
+    Variant,
+    Text,
+    Index,
+}
+
+pub trait Driver: Send + Sync {
+    fn name(&self) -> &'static str;
+    fn family(&self) -> Family;
+    /// file is a BGZF container (blocks can be walked / re-framed)
+    fn is_bgzf(&self) -> bool;
+    fn doc(&self, tier: Tier) -> BoxedStrategy<Doc>;
+    /// Write the document through noodles with the writer's documented finishing protocol.
+    /// Returns the first error any noodles call returned.
+    fn write(&self, doc: &Doc, sink: &mut dyn Write) -> io::Result<()>;
+    /// Read bytes into a transcript. `doc` supplies side information a reader legitimately needs
+    /// (the CRAM reference).
+    fn read(&self, data: &Arc<Vec<u8>>, d: &Delivery, doc: &Doc, opts: &ReadOpts) -> (Transcript, SrcStats);
+    /// Has an async twin (reader, writer).
+    fn has_async(&self) -> (bool, bool) {
+        (false, false)
+    }
+}
+
+/// Write a document to a `Vec<u8>` (healthy sink).
+pub fn write_to_vec(drv: &dyn Driver, doc: &Doc) -> io::Result<Vec<u8>> {
+    let mut v = Vec::new();
+    drv.write(doc, &mut v)?;
+    Ok(v)
+}
+
+pub fn all() -> Vec<Box<dyn Driver>> {
+    sync::all()
+}
+
+pub fn by_name(name: &str) -> Option<Box<dyn Driver>> {
+    all().into_iter().find(|d| d.name() == name)
+}
+
+pub fn names() -> Vec<&'static str> {
+    all().iter().map(|d| d.name()).collect()
+}
